@@ -198,18 +198,29 @@ impl<F: FixedChannelRegion> RegionHandler for FixedChannelPlan<F> {
                 // or ChannelMask in the LinkADRReq in Data Frame.
                 // If it has not been reset yet, we continue to use the bias for the data frames.
                 // We hope to acquire ChannelMask via LinkADRReq.
-                if self.join_channels.has_bias_and_not_exhausted() {
+                let biased = if self.join_channels.has_bias_and_not_exhausted() {
                     let channel = self.join_channels.get_next_channel(rng);
                     let dr = if channel < 64 {
                         DR::_0
                     } else {
                         DR::_4
                     };
-                    (dr, channel)
+                    Some((dr, channel))
                 // Alternatively, we will ask JoinChannel logic to determine a channel from the
                 // subband that  the join succeeded on.
-                } else if let Some(channel) = self.join_channels.first_data_channel(rng) {
-                    (datarate, channel)
+                } else {
+                    self.join_channels.first_data_channel(rng).map(|channel| (datarate, channel))
+                };
+                // The bias is only a hint: the channel must be enabled in the mask in force
+                // (which may predate this join) and match the bandwidth of the data rate.
+                let biased = biased.filter(|(dr, channel)| {
+                    let bw500 = F::datarates()[*dr as usize].as_ref().unwrap().bandwidth
+                        == Bandwidth::_500KHz;
+                    self.channel_mask.is_enabled((*channel).into()).unwrap()
+                        && bw500 == (*channel >= 64)
+                });
+                if let Some(selected) = biased {
+                    selected
                 } else {
                     // For the data frame, the datarate impacts which channel sets we can choose
                     // from. If the datarate bandwidth is 500 kHz, we must use
